@@ -121,7 +121,9 @@ class ByteArray(SimpleModel):
         joiner = type(value)()
         try:
             return (b64decode(joiner.join(value)),)
-        except TypeError:
+        except (TypeError, ValueError, AttributeError):
+            # binascii.Error, which is what invalid base64 data raises on
+            # Python 3, is a ValueError. no .join() means it's not text at all.
             raise ValidationError(value)
 
     @classmethod
